@@ -11,6 +11,7 @@ import (
 	"sync/atomic"
 	"time"
 
+	"github.com/IrineSistiana/mosproxy/internal/upstream"
 	"github.com/IrineSistiana/mosproxy/internal/upstream/transport"
 	"github.com/IrineSistiana/mosproxy/internal/zzverif/vtrace"
 )
@@ -133,6 +134,43 @@ func modeReuse(n int) {
 	time.Sleep(50 * time.Millisecond)
 }
 
+// C16: UDP upstream with TCP fallback; per exchange the server script fixes both legs
+func modeFallback(n int) {
+	plan := func(ex int) (string, string) {
+		h := h32(ex, int(seed), 16)
+		u := []string{"ok", "tc", "tc", "tc", "drop", "ok"}[h%6]
+		t := []string{"ok", "ok", "ok", "abort", "drop"}[(h>>8)%5]
+		return u, t
+	}
+	sc := func(ex int, proto string) behaviour {
+		u, t := plan(ex)
+		h := h32(ex, int(seed), 17)
+		b := behaviour{delay: time.Duration(h%8) * time.Millisecond}
+		if proto == "udp" {
+			b.tc = u == "tc"
+			b.drop = u == "drop"
+		} else {
+			b.abort = t == "abort"
+			b.drop = t == "drop"
+		}
+		return b
+	}
+	srv := newServer("f", sc, true, true)
+	defer srv.close()
+	tr.Emit("seg", "name", "fallback")
+	u, err := upstream.NewUpstream("udp://"+srv.addr, upstream.Opt{})
+	if err != nil {
+		panic(err)
+	}
+	planOf = plan
+	onlyEvents = map[string]bool{"srv.recv": true, "srv.send": true, "srv.abort": true}
+	runWorkers(u, 8, n/8+1, 300*time.Millisecond, 300*time.Millisecond, false)
+	planOf = nil
+	time.Sleep(350 * time.Millisecond)
+	u.Close()
+	onlyEvents = nil
+}
+
 func main() {
 	out := flag.String("out", "trace.ndjson", "")
 	mode := flag.String("mode", "pipe", "")
@@ -147,6 +185,8 @@ func main() {
 		modePipe(*n, *long)
 	case "reuse":
 		modeReuse(*n)
+	case "fallback":
+		modeFallback(*n)
 	default:
 		panic("unknown mode " + *mode)
 	}
